@@ -8,6 +8,12 @@ REAL operation in a fresh process under the sc-shim handler of harness/c12; the 
 `exec`; call names, outcome, handed/leaked/foreign/double-close counts must agree.
 Judge (independent of the model): the property itself, read off the process's descriptor table before / after /
 after-drop and off the close calls in the trace.
+Entry state of the descriptor table: every scenario and every one-fault case is ALSO run with each non-empty subset of
+{0,1,2} free at entry (`scenario@02`: the operation's creations land on the standard numbers) and with the table nearly
+full (`scenario@lim<k>`: RLIMIT_NOFILE leaves k numbers, the next creation gets a real EMFILE).  The census is by identity
+(every foreign number must still name the same open file description as a witness dup taken before), not by number; the
+model's number-level view (`FdScript.execK`: lowest-free allocation from the entry table) must predict the numbers the
+creations received and the final table.
 """
 import json
 
@@ -35,6 +41,19 @@ def toks(tr):
             out.pop()  # `execve:?` (written before the call) followed by its real result: it came back
         out.append((n, r.rstrip("!"), r.endswith("!")))
     return out
+
+
+ENTRY_SETS = ["0", "1", "2", "01", "02", "12", "012"]
+
+
+def scen_of(case):
+    """scenario name without the entry-state suffix"""
+    return case.split()[0].split("@")[0]
+
+
+def entry_of(case):
+    w = case.split()[0]
+    return w.split("@", 1)[1] if "@" in w else "-"
 
 
 # ---- outcomes of the data-dependent steps, per scenario (what the model's `step` nodes are told) ----
@@ -224,6 +243,9 @@ def fault_call(case, d):
     """name of the (last) call the case made fail, for signatures and histograms"""
     f = case.split()[1]
     if f == "-":
+        if entry_of(case).startswith("lim"):
+            # the table was nearly full: the call that failed is the first one the kernel refused with EMFILE
+            return next((n for n, r, forced in toks(d.get("trace", "-")) if r == "e%d" % EMFILE and not forced), "-")
         return "-"
     last = f.split(",")[-1]
     child = last.startswith("c")
@@ -248,6 +270,8 @@ def judge(case, out):
         return "dangling: a descriptor handed to the caller is not open"
     if int(d["stolen"]) or int(d["foreign"]):
         return "steal: the operation closed a descriptor it does not own"
+    if int(d.get("replaced", 0)):
+        return "steal: a number that was open at entry now names another open file (closed by the operation, number reused)"
     if int(d["dbl"]) or int(d["dropbad"]):
         return "double-close: a descriptor was closed twice"
     ch = toks(d.get("child", "-"))
@@ -259,12 +283,12 @@ def judge(case, out):
 
 def sig_of(case, out, why):
     d = parse(out) if "=" in out else {}
-    return {"scenario": case.split()[0], "kind": why.split(":")[0], "call": fault_call(case, d) if d else "?"}
+    return {"scenario": scen_of(case), "entry": entry_of(case), "kind": why.split(":")[0], "call": fault_call(case, d) if d else "?"}
 
 
 def model_lines(case, out):
     """driver input for the caller's view (and the forked child's view) of one measured case"""
-    name = case.split()[0]
+    name = scen_of(case)
     d = parse(out)
     script, stepf = SCEN[name]
     tr = toks(d["trace"])
@@ -286,7 +310,7 @@ def expect_from_impl(case, out):
     tr = toks(d["trace"])
     o = "ok" if d["out"] in ("ok", "none") else ("err" if d["out"].startswith("err") else d["out"])
     exp = ["out=%s trace=%s handed=%s leaked=%s dangling=%s foreign=%s dbl=%s unused=0"
-           % (o, ",".join(canon_names(case.split()[0], [n for n, _, _ in tr])) or "-", d["handed"], d["leaked"], d["dangling"], d["foreign"], d["dbl"])]
+           % (o, ",".join(canon_names(scen_of(case), [n for n, _, _ in tr])) or "-", d["handed"], d["leaked"], d["dangling"], d["foreign"], d["dbl"])]
     if d.get("child", "-") != "-":
         ch = toks(d["child"])
         names = [n for n, _, _ in ch if n not in ("exit", "exit_group", "returned")]
@@ -382,60 +406,88 @@ def run(ctx):
         return
     drv = [C.driver_path("drv_c12")]
     names = sorted(SCEN)
+    base_tr = {}
+
+    def level1_of(cases, outs):
+        """every call of the run faulted with every errno class / forced value; records the run's call names"""
+        lv = []
+        for c, o in zip(cases, outs):
+            if "=" not in o:
+                continue
+            n = c.split()[0]
+            d = parse(o)
+            tr = toks(d["trace"])
+            base_tr[n] = [t[0] for t in tr]
+            for k, (cn, r, _) in enumerate(tr):
+                for e in ERRNOS + SPECIAL.get(cn, []):
+                    lv.append("%s %d:e%d" % (n, k, e))
+                if cn not in NO_VALUE_FAULT:
+                    for v in VALUES.get(cn, []):
+                        lv.append("%s %d:v%d" % (n, k, v))
+            ch = [t for t in toks(d.get("child", "-")) if t[0] not in ("exit", "returned")]
+            for k, (cn, r, _) in enumerate(ch):
+                for e in CHILD_ERRNOS + ([ENOENT] if cn == "execve" else []):
+                    lv.append("%s c%d:e%d" % (n, k, e))
+        return lv
+
+    def deeper(frontier, stream_fmt, cap):
+        """further faults on the paths that only exist after an earlier fault"""
+        got = []
+        depth = 2 if ctx.tier == "quick" else 3
+        for lvl in range(2, depth + 1):
+            nxt = []
+            for c, o in frontier:
+                n, f = c.split()
+                if "=" not in o or f.split(",")[-1].startswith("c"):
+                    continue
+                tr = toks(parse(o)["trace"])
+                kmax = int(f.split(",")[-1].split(":")[0])
+                names_now = [t[0] for t in tr]
+                if names_now[kmax + 1:] == base_tr.get(n, [])[kmax + 1:]:
+                    continue  # same continuation as the fault-free run: already covered
+                for j in range(kmax + 1, len(tr)):
+                    for e in SECOND + SPECIAL.get(tr[j][0], []):
+                        nxt.append("%s %s,%d:e%d" % (n, f, j, e))
+                    for v in VALUES.get(tr[j][0], [])[:1]:
+                        nxt.append("%s %s,%d:v%d" % (n, f, j, v))
+            if not nxt:
+                break
+            nxt = sorted(set(nxt))
+            if len(nxt) > cap:
+                nxt = ctx.rng.shuffle(nxt)[:cap]
+            o2 = run_cases(ctx, exe, drv, nxt, stream_fmt % lvl)
+            frontier = list(zip(nxt, o2))
+            got += frontier
+        return got
+
+    # ---- the ordinary table (0,1,2 open, plenty of room)
     base_cases = ["%s -" % n for n in names]
     base = run_cases(ctx, exe, drv, base_cases, "fault-free")
     if not base:
         return
-    base_tr = {}
-    level1 = []
+    level1 = level1_of(base_cases, base)
+    outs1 = run_cases(ctx, exe, drv, level1, "one-fault")
+    allc = list(zip(base_cases, base)) + list(zip(level1, outs1))
+    allc += deeper(list(zip(level1, outs1)), "%d-faults", 1500 if ctx.tier == "quick" else 20000)
+    # ---- every non-empty subset of {0,1,2} free at entry: the creations land on the standard numbers
+    ent_cases = ["%s@%s -" % (n, e) for n in names for e in ENTRY_SETS]
+    ent = run_cases(ctx, exe, drv, ent_cases, "entry-fault-free")
+    ent1 = level1_of(ent_cases, ent)
+    ento1 = run_cases(ctx, exe, drv, ent1, "entry-one-fault")
+    allc += list(zip(ent_cases, ent)) + list(zip(ent1, ento1))
+    allc += deeper(list(zip(ent1, ento1)), "entry-%d-faults", 1500 if ctx.tier == "quick" else 20000)
+    # ---- the table nearly full: only k numbers left, the (k+1)-th creation gets a REAL EMFILE (also with 0 free)
+    lim_cases = []
     for n, o in zip(names, base):
         if "=" not in o:
             continue
-        d = parse(o)
-        tr = toks(d["trace"])
-        base_tr[n] = [t[0] for t in tr]
-        for k, (cn, r, _) in enumerate(tr):
-            for e in ERRNOS + SPECIAL.get(cn, []):
-                level1.append("%s %d:e%d" % (n, k, e))
-            if cn not in NO_VALUE_FAULT:
-                for v in VALUES.get(cn, []):
-                    level1.append("%s %d:v%d" % (n, k, v))
-        ch = [t for t in toks(d.get("child", "-")) if t[0] not in ("exit", "returned")]
-        for k, (cn, r, _) in enumerate(ch):
-            for e in CHILD_ERRNOS + ([ENOENT] if cn == "execve" else []):
-                level1.append("%s c%d:e%d" % (n, k, e))
-    outs1 = run_cases(ctx, exe, drv, level1, "one-fault")
-    allc = list(zip(base_cases, base)) + list(zip(level1, outs1))
-    # further faults on the paths that only exist after an earlier fault
-    frontier = list(zip(level1, outs1))
-    depth = 2 if ctx.tier == "quick" else 3
-    for lvl in range(2, depth + 1):
-        nxt = []
-        for c, o in frontier:
-            n, f = c.split()
-            if "=" not in o or f.split(",")[-1].startswith("c"):
-                continue
-            tr = toks(parse(o)["trace"])
-            kmax = int(f.split(",")[-1].split(":")[0])
-            names_now = [t[0] for t in tr]
-            if names_now[kmax + 1:] == base_tr.get(n, [])[kmax + 1:]:
-                continue  # same continuation as the fault-free run: already covered
-            for j in range(kmax + 1, len(tr)):
-                for e in SECOND + SPECIAL.get(tr[j][0], []):
-                    nxt.append("%s %s,%d:e%d" % (n, f, j, e))
-                for v in VALUES.get(tr[j][0], [])[:1]:
-                    nxt.append("%s %s,%d:v%d" % (n, f, j, v))
-        if not nxt:
-            break
-        nxt = sorted(set(nxt))
-        cap = 1500 if ctx.tier == "quick" else 20000
-        if len(nxt) > cap:
-            nxt = ctx.rng.shuffle(nxt)[:cap]
-        o2 = run_cases(ctx, exe, drv, nxt, "%d-faults" % lvl)
-        frontier = list(zip(nxt, o2))
-        allc += frontier
+        nums = parse(o).get("nums", "-")
+        cnt = 0 if nums == "-" else len(nums.split(","))
+        lim_cases += ["%s@lim%d -" % (n, k) for k in range(min(cnt, 10))]
+    limo = run_cases(ctx, exe, drv, lim_cases, "table-nearly-full")
+    allc += list(zip(lim_cases, limo))
     # malformed lines are rejected by both sides
-    bad = ["nope -", "file_open x", "file_open 1:q4", "file_open"]
+    bad = ["nope -", "file_open x", "file_open 1:q4", "file_open", "file_open@ -", "file_open@3 -", "file_open@10 -", "file_open@lim -"]
     rc, bo, _ = C.run_filter([exe], bad)
     rc, bm, _ = C.run_filter(drv, ["cur nope a=. s=. ca=- cs=-", "cur file_open a=x s=. ca=- cs=-", "zzz file_open a=. s=. ca=- cs=-", "cur"])
     ctx.evaluations += len(bad)
@@ -447,7 +499,8 @@ def run(ctx):
             continue
         d = parse(o)
         n, f = c.split()
-        ctx.count((n, fault_call(c, d), errno_class(f), d["out"].split(":")[0]))
+        ctx.count((scen_of(c), entry_of(c), fault_call(c, d), errno_class(f), d["out"].split(":")[0]))
+        ctx.hist("entry_state", entry_of(c))
         ctx.hist("outcomes", d["out"].split(":")[0])
         ctx.hist("errno_class_of_last_fault", errno_class(f))
         ctx.hist("failed_call", fault_call(c, d))
